@@ -1,6 +1,7 @@
 """C01 — one point set per polyhedron, whatever its history."""
 from . import poly_common as pc
 from . import c01_status
+from . import c01_conv
 LEVEL = "proof"
 
 
@@ -13,12 +14,14 @@ def run(ctx):
     pc.run_poly(ctx, ops="c01", n_hist=1500 if quick else 40000, length=12 if quick else 30,
                 maxdim=3 if quick else 4)
     broken += c01_status.run(ctx)          # stage 2: the lazy status protocol (proof + status correspondence)
+    broken += c01_conv.run(ctx)            # stage 3: the double-description engine (conversion / simplify / minimize)
     for b in broken:
         # a proof obligation broke but the correspondence above found no failing input
         ctx.violation("proof obligation broken: " + b, {"obligation": b}, found_input=False)
     ctx.assumptions += [
         "the judge (K1 deciders) is proved sound and complete; 'all histories' of the real code is sampled by seeded histories",
-        "Chernikova conversion/simplification are not modelled: they are observed through constraints()/generators() against the exact oracle",
+        "Chernikova conversion/simplification: modelled row for row in stage 3 (PPLV/Conv, soundness proved, completeness certified per run); "
+        "in the histories above they are observed through constraints()/generators() against the exact oracle",
         "every query oracle is proved two-sided (C01.query_*: is_bounded via supB, affine_dimension via Gaussian elimination "
         "on the implicit equalities with an explicit affine basis, relation_with congruence / generator, constrains)",
     ]
